@@ -980,6 +980,18 @@ def rule_instance_not_a_condition(ctx, rid="R1.11"):
             split(c)
         bad = 0
         for a in atoms:
+            if isinstance(a, ast.Compare) and len(a.ops) == 1 and isinstance(a.ops[0], (ast.Is, ast.IsNot, ast.Eq, ast.NotEq)) \
+                    and isinstance(a.comparators[0], ast.Constant) and a.comparators[0].value is None \
+                    and isinstance(a.left, (ast.Name, ast.Subscript, ast.Call)) \
+                    and not (isinstance(a.left, ast.Call) and not (isinstance(a.left.func, ast.Attribute) and a.left.func.attr == "get")):
+                # `instance.get(name) is None` / `value is None`: JSON null is a value; a member holding it is present
+                t = pv.term(a.left, pv.env_at(a.left))
+                if rooted(t, ip):
+                    bad += 1
+                    r.fail("%s|instance-member-is-none|%s" % (f.qual, norm(a)[:40]), site(f, a),
+                           "`%s`: a member of the instance is compared with None -- JSON null is a value like any other, so a member holding "
+                           "null is taken for an absent one (presence is `name in instance`)" % norm(a)[:60])
+                continue
             if isinstance(a, (ast.Compare, ast.Constant)):
                 continue
             if isinstance(a, ast.Call) and not (isinstance(a.func, ast.Attribute) and a.func.attr == "get"):
@@ -1038,3 +1050,7 @@ def run(ctx):
     # R1.15: what counts as a number / string / array / object is the type checker's decision alone (Decimal, OrderedDict, ...)
     from .c05 import rule_carriers
     rule_carriers(ctx, "R1.15")
+    # R1.16: no behaviour changes at a number fixed in the source (sizes, depths, counts, magnitudes are unbounded in the property's domain)
+    from . import scope as _scope
+    _scope.rule_no_size_thresholds(ctx, 'R1.16', ('_validators', '_legacy_validators', '_utils', '_types'), 'the keyword functions and their helpers')
+    _scope.rule_no_value_identity(ctx, 'R1.17', ('_validators', '_legacy_validators', '_utils', '_types'), 'the keyword functions and their helpers')
